@@ -163,6 +163,16 @@ impl<'a> G<'a> {
         }
         json!({"rand": id})
     }
+    /// the data stream of a scenario: mostly random bytes, sometimes degenerate data (all zero, all 0xFF, one
+    /// repeated byte) - a data-dependent shortcut in a mode would only show on those
+    fn data_src(&mut self, id: u64) -> Value {
+        match self.rng.below(12) {
+            0 => json!({"zero": 1}),
+            1 => json!({"fill": 255}),
+            2 => json!({"fill": self.rng.below(256)}),
+            _ => json!({"rand": id}),
+        }
+    }
     fn stream_kind(&mut self) -> &'static str {
         let all = ["ctr32be", "ctr32le", "ctr64be", "ctr64le", "ctr128be", "ctr128le", "ofb", "belt"];
         all[self.rng.below(all.len())]
@@ -337,19 +347,20 @@ fn gen_conf(g: &mut G, kinds: &[&str]) {
     let f = g.pick_fac(kind);
     let (bs, w) = (g.bs(f), g.w(f));
     let dir = if (kind == "cbc" || kind == "cfb") && g.rng.chance(2, 3) { "dec" } else if g.rng.coin() { "enc" } else { "dec" };
+    let src0 = g.data_src(0);
     match kind {
         "cfbbuf" => {
-            g.new_obj("a", f, kind, dir, 0, json!({"rand":0}), json!({"rand":0}), "inner");
+            g.new_obj("a", f, kind, dir, 0, json!({"rand":0}), src0.clone(), "inner");
             let n = g.nbytes(bs, 5);
             g.sched_bytes("a", n, bs, Some(false), true);
         }
         "ofb" => {
-            g.new_obj("a", f, kind, "ks", 0, json!({"rand":0}), json!({"rand":0}), "inner");
+            g.new_obj("a", f, kind, "ks", 0, json!({"rand":0}), src0.clone(), "inner");
             let n = g.nbytes(bs, 5);
             g.sched_bytes("a", n, bs, None, true);
         }
         "ofbcore" => {
-            g.new_obj("a", f, kind, "ks", 0, json!({"rand":0}), json!({"rand":0}), "inner");
+            g.new_obj("a", f, kind, "ks", 0, json!({"rand":0}), src0.clone(), "inner");
             let n = g.nblocks(w, 8);
             g.sched_blocks("a", n, w, None, true);
             if g.rng.coin() {
@@ -357,7 +368,7 @@ fn gen_conf(g: &mut G, kinds: &[&str]) {
             }
         }
         _ => {
-            g.new_obj("a", f, kind, dir, 0, json!({"rand":0}), json!({"rand":0}), "inner");
+            g.new_obj("a", f, kind, dir, 0, json!({"rand":0}), src0.clone(), "inner");
             let oneshot = (kind == "cfb" || kind == "cfb8") && g.rng.chance(1, 4);
             let n = g.nblocks(w, 9) * if kind == "cfb8" { 2 } else { 1 };
             if oneshot {
@@ -496,12 +507,13 @@ fn gen_c07(g: &mut G) {
     let dir = if kind.ends_with("core") { "ks" } else if let Some(d) = fdir { d } else if g.rng.coin() { "enc" } else { "dec" };
     let b2b = g.rng.coin();
     let iv = g.iv_for(&kind, 0);
+    let src0 = g.data_src(0);
     let wmax = fs.iter().map(|&i| g.w(i)).max().unwrap();
     if CTS_KINDS.contains(&kind.as_str()) {
         let n = bs * g.rng.range(1, 3 * wmax.min(5) + 2) + if g.rng.coin() { g.rng.below(bs) } else { 0 };
         for (j, &fi) in fs.iter().enumerate().take(5) {
             let o = format!("o{j}");
-            g.new_obj(&o, fi, &kind, dir, 0, iv.clone(), json!({"rand":0}), "inner");
+            g.new_obj(&o, fi, &kind, dir, 0, iv.clone(), src0.clone(), "inner");
             g.oneshot(&o, "cts", n, b2b);
         }
         return;
@@ -511,7 +523,7 @@ fn gen_c07(g: &mut G) {
     for j in 0..nobj {
         let o = format!("o{j}");
         let fi = if j == 0 { f } else { *g.rng.pick(&fs) };
-        g.new_obj(&o, fi, &kind, dir, 0, iv.clone(), json!({"rand":0}), "inner");
+        g.new_obj(&o, fi, &kind, dir, 0, iv.clone(), src0.clone(), "inner");
     }
     // object 0: one block at a time; others: random partitions; interleave the objects' calls
     let mut plans: Vec<Vec<(usize, bool)>> = vec![];
@@ -842,8 +854,9 @@ fn gen_c12(g: &mut G) {
     let (bs, w) = (g.bs(f), g.w(f));
     let dir = if kind.ends_with("core") || ctr_bits(&kind).is_some() || kind == "ofb" { "ks" } else if let Some(d) = fdir { d } else if g.rng.coin() { "enc" } else { "dec" };
     let iv = g.iv_for(&kind, 0);
-    g.new_obj("p", f, &kind, dir, 0, iv.clone(), json!({"rand":0}), "inner");
-    g.new_obj("q", f, &kind, dir, 0, iv, json!({"rand":0}), "inner");
+    let src0 = g.data_src(0);
+    g.new_obj("p", f, &kind, dir, 0, iv.clone(), src0.clone(), "inner");
+    g.new_obj("q", f, &kind, dir, 0, iv, src0, "inner");
     if !how.is_empty() {
         let n = match how {
             "cts" => bs + g.nbytes(bs, 2 * w.min(4) + 2),
